@@ -498,6 +498,21 @@ func genC14(r *simrt.Rand, tier string, idx uint64) *Plan {
 							}
 						}
 						cp.Ops = append(cp.Ops, Op{Kind: "restart", Addr: a})
+						if r.Chance(1, 2) {
+							// right after the restart, within one housekeeping tick: an asynchronous call
+							// (its failure is only known at completion) followed at once by further calls
+							for k := 0; k < 1+r.Intn(3); k++ {
+								op := genTCall(r, 1)
+								op.Addr, op.Flags, op.Arg = a, 0, 0
+								if k == 0 {
+									op.Kind = []string{"go", "rt"}[r.Intn(2)]
+								}
+								cp.Ops = append(cp.Ops, op)
+								if op.Kind == "go" || op.Kind == "rt" {
+									cp.Ops = append(cp.Ops, Op{Kind: "wait"})
+								}
+							}
+						}
 						killed = r.Chance(2, 3)
 					}
 				default:
